@@ -1,4 +1,4 @@
-(* GENERATED from SQLAlchemy 2.0.54 by harness/props/c14.py:dump_reserved() -- IdentifierPreparer parameters of the five
+(* GENERATED from SQLAlchemy 2.0.54 by harness/props/c14.py:dump_reserved() -- IdentifierPreparer parameters of the six
    dialects.  Outside alembic: trusted, and re-checked against the installed SQLAlchemy on every run (kind "params"). *)
 From Coq Require Import List NArith String.
 From AV Require Import Model.Quote.
@@ -100,6 +100,38 @@ Definition reserved_oracle : list str := map s2l [
   "varchar"; "varchar2"; "view"; "where"; "with"
 ].
 
+Definition reserved_mariadb : list str := map s2l [
+  "accessible"; "add"; "all"; "alter"; "analyze"; "and"; "as"; "asc"; "asensitive"; "before"; "between";
+  "bigint"; "binary"; "blob"; "body"; "both"; "by"; "call"; "cascade"; "case"; "change"; "char"; "character";
+  "check"; "collate"; "column"; "condition"; "constraint"; "continue"; "convert"; "create"; "cross";
+  "current_date"; "current_role"; "current_time"; "current_timestamp"; "current_user"; "cursor"; "database";
+  "databases"; "day_hour"; "day_microsecond"; "day_minute"; "day_second"; "dec"; "decimal"; "declare";
+  "default"; "delayed"; "delete"; "desc"; "describe"; "deterministic"; "distinct"; "distinctrow"; "div";
+  "do_domain_ids"; "double"; "drop"; "dual"; "each"; "else"; "elseif"; "elsif"; "enclosed"; "escaped";
+  "except"; "exists"; "exit"; "explain"; "false"; "fetch"; "float"; "float4"; "float8"; "for"; "force";
+  "foreign"; "from"; "fulltext"; "general"; "goto"; "grant"; "group"; "having"; "high_priority"; "history";
+  "hour_microsecond"; "hour_minute"; "hour_second"; "if"; "ignore"; "ignore_domain_ids"; "ignore_server_ids";
+  "in"; "index"; "infile"; "inner"; "inout"; "insensitive"; "insert"; "int"; "int1"; "int2"; "int3"; "int4";
+  "int8"; "integer"; "intersect"; "interval"; "into"; "is"; "iterate"; "join"; "key"; "keys"; "kill";
+  "leading"; "leave"; "left"; "like"; "limit"; "linear"; "lines"; "load"; "localtime"; "localtimestamp";
+  "lock"; "long"; "longblob"; "longtext"; "loop"; "low_priority"; "master_heartbeat_period";
+  "master_ssl_verify_server_cert"; "match"; "maxvalue"; "mediumblob"; "mediumint"; "mediumtext"; "middleint";
+  "minute_microsecond"; "minute_second"; "mod"; "modifies"; "natural"; "no_write_to_binlog"; "not"; "null";
+  "numeric"; "offset"; "on"; "optimize"; "option"; "optionally"; "or"; "order"; "others"; "out"; "outer";
+  "outfile"; "over"; "package"; "page_checksum"; "parse_vcol_expr"; "partition"; "period"; "position";
+  "precision"; "primary"; "procedure"; "purge"; "raise"; "range"; "read"; "read_write"; "reads"; "real";
+  "recursive"; "ref_system_id"; "references"; "regexp"; "release"; "rename"; "repeat"; "replace"; "require";
+  "resignal"; "restrict"; "return"; "returning"; "revoke"; "right"; "rlike"; "row_number"; "rows"; "rowtype";
+  "schema"; "schemas"; "second_microsecond"; "select"; "sensitive"; "separator"; "set"; "show"; "signal";
+  "slow"; "smallint"; "spatial"; "specific"; "sql"; "sql_big_result"; "sql_calc_found_rows";
+  "sql_small_result"; "sqlexception"; "sqlstate"; "sqlwarning"; "ssl"; "starting"; "stats_auto_recalc";
+  "stats_persistent"; "stats_sample_pages"; "straight_join"; "system"; "system_time"; "table"; "terminated";
+  "then"; "tinyblob"; "tinyint"; "tinytext"; "to"; "trailing"; "trigger"; "true"; "undo"; "union"; "unique";
+  "unlock"; "unsigned"; "update"; "usage"; "use"; "using"; "utc_date"; "utc_time"; "utc_timestamp"; "values";
+  "varbinary"; "varchar"; "varcharacter"; "varying"; "versioning"; "when"; "where"; "while"; "window";
+  "with"; "without"; "write"; "xor"; "year_month"; "zerofill"
+].
+
 Definition digits_dollar : list N := [36; 48; 49; 50; 51; 52; 53; 54; 55; 56; 57].
 
 Definition qspec_of (d:dialect) : qspec :=
@@ -109,4 +141,5 @@ Definition qspec_of (d:dialect) : qspec :=
   | Mysql      => mkQ 96 96 true  reserved_mysql digits_dollar true
   | Mssql      => mkQ 91 93 false reserved_mssql digits_dollar false
   | Oracle     => mkQ 34 34 false reserved_oracle (digits_dollar ++ [95]) false
+  | Mariadb    => mkQ 96 96 true  reserved_mariadb digits_dollar true
   end.
